@@ -3,6 +3,9 @@ CONSTANTS
   MaxIdx = 4
   MaxTerm = 2
   MaxAppend = 2
+  MaxCuts = 0
+  MaxDamage = 0
+  W_EntiAlways = FALSE
   MaxReady = 3
   InstallSaveFirst = FALSE
   SnapshotMustBeInWal = FALSE
